@@ -137,7 +137,7 @@ pub fn run(a: &Args) {
 		return;
 	}
 	let right = right.unwrap();
-	let rounds = if a.thorough() { 8 } else { 2 };
+	let rounds = if a.thorough() { 8 } else { 3 };
 	for round in 0..rounds {
 		let owner: Own = Owner::new(w.wallets[0].inst.clone(), None);
 		// shared material for this round (created with the right token)
